@@ -48,7 +48,7 @@ def structure_trees(tier):
     T.FILL.setdefault('vt', ('t', '\x0b'))
     for f in labelled_forests(max_n):
         n = sum(1 for _ in _walk(f))
-        single = n <= (2 if tier == 'quick' else 3)
+        single = n <= 2
         for name, g in T.interleavings(f, kinds=kinds, single=single):
             out.append((name, g))
     if tier != 'quick':
@@ -283,7 +283,7 @@ def docs_for(layer, tier):
     skipped = 0
     for ti, (name, forest) in enumerate(trees_fn(tier)):
         for kind in kinds:
-            if kind == 'api-xml' and layer in ('S', 'F') and tier == 'quick' and ti % 3:
+            if kind == 'api-xml' and layer in ('S', 'F') and ti % 3:
                 continue        # structure does not depend on the document type: XML twin for every third tree
             try:
                 soup = _sel.build(forest, kind)
